@@ -93,7 +93,7 @@ def parse_junit(so, ncases):
     return cases
 
 
-def run_test_cmd(wd, i, c, cases, layout, fmt):
+def run_test_cmd(wd, i, c, cases, layout, fmt, events=None):
     base = "t%d" % i
     if layout == "dir":
         wd.write("%s/rules.guard" % base, c["rules"])
@@ -105,7 +105,7 @@ def run_test_cmd(wd, i, c, cases, layout, fmt):
         args = ["test", "-r", rp, "-t", tp]
     if fmt != "plain":
         args += ["-o", fmt]
-    rc, so, se = cli.run(args)
+    rc, so, se = cli.run(args, env={"GUARD_VERIF_EVENTS": events} if events else None)
     obs = {"exit": rc, "wf": True, "cases": [], "junit": fmt == "junit"}
     try:
         if fmt == "plain":
@@ -154,6 +154,7 @@ def validate_on(wd, i, c, cases):
 
 
 def record(res, tier, tr):
+    open(tr + ".events", "w").close()
     n = 30 if tier == "quick" else 500
     rnd = random.Random(seed() + 16)
     wd = cli.Workdir("c16")
@@ -162,24 +163,56 @@ def record(res, tier, tr):
     with open(tr, "w") as f:
         for ci, cfg in enumerate(["core", "dups", "full"]):
             pairs = clitrace.gen_pairs(seed() * 4243 + ci, n, cfg)
+            # every second rules file also observes each of its rules through a reference by name
+            clitrace.add_refs(pairs[0::2])
             for k, c in enumerate(pairs):
                 names = sorted({r["n"] for r in c["prog"]["rules"]})
-                ncases = 1 + rnd.randrange(4)
+                ncases = rnd.choice([1, 2, 2, 3, 3, 4])
                 cases = []
-                for q in range(ncases):
-                    src = pairs[(k + q) % len(pairs)]
+                # candidate inputs: the document the rules were generated for, variants of it and unrelated
+                # documents; the test cases are picked so that the same rule comes out differently in the
+                # cases of one file wherever the candidates allow it (state carried from one case to the
+                # next then shows)
+                cand_docs = [c["doc"]] + [clitrace.mutate_doc(c["doc"], rnd) for _ in range(4)]
+                cand_texts = clitrace.render_docs(cand_docs)
+                cands = [{"doc": d, "text": t} for d, t in zip(cand_docs, cand_texts)]
+                for q in range(2):
+                    o = pairs[(k + 1 + q) % len(pairs)]
+                    cands.append({"doc": o["doc"], "text": o["data"]})
+                i += 1
+                vres = validate_on(wd, i, c, cands)
+                order = list(range(len(cands)))
+                rnd.shuffle(order)
+                picked, seen_vec = [], set()
+                for q in order:
+                    vec = json.dumps(vres[q]["rules"])
+                    if vec not in seen_vec and len(picked) < ncases:
+                        seen_vec.add(vec)
+                        picked.append(q)
+                for q in order:
+                    if len(picked) < ncases and q not in picked:
+                        picked.append(q)
+                rnd.shuffle(picked)
+                for q in picked:
+                    src = cands[q]
                     exp = []
                     for nm in names:
                         if rnd.random() < 0.75:
                             exp.append([nm, rnd.choice(STAT)])
                     if rnd.random() < 0.2:
                         exp.append(["no_such_rule", "PASS"])
-                    cases.append({"doc": src["doc"], "text": src["data"], "exp": exp})
+                    cases.append({"doc": src["doc"], "text": src["text"], "exp": exp, "v": vres[q]})
                 layout = "dir" if (k % 3 == 0) else "single"
                 fmt = fmts[k % 4]
-                i += 1
-                obs, args, so, se = run_test_cmd(wd, i, c, cases, layout, fmt)
-                obs["validate"] = validate_on(wd, i, c, cases)
+                evp = os.path.join(wd.path, "events_%d.ndjson" % i)
+                obs, args, so, se = run_test_cmd(wd, i, c, cases, layout, fmt, events=evp)
+                with open(tr + ".events", "a") as ef:
+                    ef.write(json.dumps({"e": "begin", "i": i}) + "\n")
+                    if os.path.exists(evp):
+                        ef.write(open(evp).read())
+                        os.remove(evp)
+                    ef.write(json.dumps({"e": "end", "i": i, "ok": True, "check": False, "rules": []}) + "\n")
+                obs["validate"] = [x["v"] for x in cases]
                 if fmt == "junit":
                     # junit shows neither the rules without expectation nor the evaluated status of passes
                     for cs_ in obs["cases"]:
@@ -240,6 +273,9 @@ def run_trace(res, tier):
             res.violation("test:%s:%s/%s" % (name, l["fmt"], l["layout"]), {"relation": name, "line": l})
     res.cov["relations"] = seen
     res.add("evaluations", n)
+    # every test case gets a fresh RootScope (hook events of the test runs against GuardMachine)
+    import c12
+    c12.cli_events(res, tr + ".events")
     for l in lines[:2]:
         res.sample({"test_line": {k: l[k] for k in ("layout", "fmt", "cmd")}, "cases": l["cases"][:1], "shown": l["obs"]["cases"][:1], "exit": l["obs"]["exit"]})
     os.remove(tr)
